@@ -100,7 +100,8 @@ void ppGCD(word d[], const word a[], size_t n, const word b[], size_t m,
 			wwXor2(v, u, n);
 	}
 	while (!wwIsZero(u, n));
-	// d <- v
+	// d <- v (н.о.д. укладывается в min(n, m) слов)
+	m = MIN2(n, m);
 	wwCopy(d, v, m);
 	// d <- d * x^s
 	wwShHi(d, W_OF_B(wwBitSize(d, m) + s), s);
@@ -199,7 +200,8 @@ void ppExGCD(word d[], word da[], word db[], const word a[], size_t n,
 		}
 	}
 	while (!wwIsZero(u, nu));
-	// d <- v
+	// d <- v (н.о.д. укладывается в min(n, m) слов)
+	m = MIN2(n, m);
 	wwCopy(d, v, m);
 	// d <- d * 2^s
 	wwShHi(d, W_OF_B(wwBitSize(d, m) + s), s);
